@@ -6,6 +6,8 @@ package mc
 
 import (
 	"fmt"
+	"os"
+	"runtime"
 	"sync"
 	"time"
 
@@ -52,6 +54,9 @@ type Sched struct {
 	detached bool // counting mode: never park
 	closures int  // number of closures granted
 }
+
+// HangDump, if set, is the path prefix of goroutine dumps written on a hang.
+var HangDump = os.Getenv("VERIF_HANGDUMP")
 
 // HangTimeout is the watchdog for a single step.
 var HangTimeout = 20 * time.Second
@@ -179,6 +184,16 @@ func (s *Sched) Settle() bool {
 	defer t.Stop()
 	for !s.settledLocked() {
 		if s.hang {
+			if HangDump != "" {
+				buf := make([]byte, 1<<20)
+				buf = buf[:runtime.Stack(buf, true)]
+				hdr := fmt.Sprintf("kicks=%d begins=%d http=%d detached=%v\n", s.kicks, s.begins, s.httpStarting, s.detached)
+				for _, a := range s.order {
+					hdr += fmt.Sprintf("actor %q conn=%v begun=%v parked=%v running=%v\n", a.raw, a.isConn, a.begun, a.parked, a.running)
+				}
+				buf = append([]byte(hdr), buf...)
+				os.WriteFile(fmt.Sprintf("%s-%d.txt", HangDump, os.Getpid()), buf, 0644)
+			}
 			return false
 		}
 		s.cond.Wait()
@@ -244,6 +259,7 @@ func (s *Sched) Release() {
 	for _, a := range s.order {
 		if a.parked {
 			a.parked = false
+			a.running = true // until its run ends; Settle must wait for it
 			parked = append(parked, a)
 		}
 	}
